@@ -2,6 +2,7 @@ package verifsim
 
 import (
 	"fmt"
+	"strings"
 
 	"connectrpc.com/vanguard"
 	"google.golang.org/protobuf/proto"
@@ -35,6 +36,53 @@ func (notFoundResolver) FindExtensionByName(protoreflect.FullName) (protoreflect
 }
 func (notFoundResolver) FindExtensionByNumber(protoreflect.FullName, protoreflect.FieldNumber) (protoreflect.ExtensionType, error) {
 	return nil, protoregistry.NotFound
+}
+
+// partialResolver is the global registry minus a set of message names: a resolver that knows some of a schema's types
+// and not others (a descriptor set loaded at run time next to generated code for the well-known types, say).
+type partialResolver struct {
+	hidden map[protoreflect.FullName]bool
+}
+
+func (r partialResolver) FindMessageByName(n protoreflect.FullName) (protoreflect.MessageType, error) {
+	if r.hidden[n] {
+		return nil, protoregistry.NotFound
+	}
+	return protoregistry.GlobalTypes.FindMessageByName(n)
+}
+func (r partialResolver) FindMessageByURL(u string) (protoreflect.MessageType, error) {
+	n := u
+	if i := strings.LastIndexByte(u, '/'); i >= 0 {
+		n = u[i+1:]
+	}
+	return r.FindMessageByName(protoreflect.FullName(n))
+}
+func (partialResolver) FindExtensionByName(n protoreflect.FullName) (protoreflect.ExtensionType, error) {
+	return protoregistry.GlobalTypes.FindExtensionByName(n)
+}
+func (partialResolver) FindExtensionByNumber(m protoreflect.FullName, f protoreflect.FieldNumber) (protoreflect.ExtensionType, error) {
+	return protoregistry.GlobalTypes.FindExtensionByNumber(m, f)
+}
+
+// hideTypes returns the request-only (or response-only) message types of a service.
+func hideTypes(sd protoreflect.ServiceDescriptor, requests bool) map[protoreflect.FullName]bool {
+	in, out := map[protoreflect.FullName]bool{}, map[protoreflect.FullName]bool{}
+	ms := sd.Methods()
+	for i := 0; i < ms.Len(); i++ {
+		in[ms.Get(i).Input().FullName()] = true
+		out[ms.Get(i).Output().FullName()] = true
+	}
+	hidden := map[protoreflect.FullName]bool{}
+	a, b := in, out
+	if !requests {
+		a, b = out, in
+	}
+	for n := range a {
+		if !b[n] {
+			hidden[n] = true
+		}
+	}
+	return hidden
 }
 
 // privateFiles rebuilds file and all its dependencies in a registry of their own. If dynamicOptions is set, the
@@ -98,6 +146,11 @@ func alternateSchemaImpl(via string, sch *Schema) (protoreflect.ServiceDescripto
 		return noParentService{orig}, nil, nil
 	case "notfound":
 		return orig, []vanguard.ServiceOption{vanguard.WithTypeResolver(notFoundResolver{})}, nil
+	case "hide-requests":
+		// the resolver knows every type except the ones used only as requests: those fall back to dynamic messages
+		return orig, []vanguard.ServiceOption{vanguard.WithTypeResolver(partialResolver{hideTypes(orig, true)})}, nil
+	case "hide-responses":
+		return orig, []vanguard.ServiceOption{vanguard.WithTypeResolver(partialResolver{hideTypes(orig, false)})}, nil
 	case "fresh-notfound":
 		fdp := protodesc.ToFileDescriptorProto(orig.ParentFile())
 		nf, err := protodesc.NewFile(fdp, protoregistry.GlobalFiles)
